@@ -239,7 +239,7 @@ func (p *parser) expr() Expr {
 			for _, n := range names {
 				vars = append(vars, QVar{n, t})
 			}
-			if p.isOp(";") {
+			if p.isOp(";") || p.isOp(",") {
 				p.i++
 				continue
 			}
@@ -561,6 +561,7 @@ type SpecFn struct {
 	Result  TypeExpr
 	Body    Expr   // nil: uninterpreted
 	Rec     bool
+	Pred    bool // heap-reading predicate: expanded inline at each use
 	File    string
 	Line    int
 }
@@ -738,6 +739,15 @@ func (cs *ContractSet) loadFile(path string) error {
 			if err != nil {
 				return fmt.Errorf("%s:%d: %v", path, l.no, err)
 			}
+			sf.File, sf.Line = path, l.no
+			cs.SpecFns[pkg+"."+sf.Name] = sf
+		case "pred":
+			curF, curT, curA = nil, nil, nil
+			sf, err := parseSpecFn("fn "+rest, pkg)
+			if err != nil {
+				return fmt.Errorf("%s:%d: %v", path, l.no, err)
+			}
+			sf.Pred = true
 			sf.File, sf.Line = path, l.no
 			cs.SpecFns[pkg+"."+sf.Name] = sf
 		case "ghost":
@@ -994,12 +1004,16 @@ func parseSpecFn(rest, pkg string) (*SpecFn, error) {
 			for _, n := range names {
 				sf.Params = append(sf.Params, QVar{n, t})
 			}
-			if p.isOp(";") {
+			if p.isOp(";") || p.isOp(",") {
 				p.i++
 			}
 		}
 		p.i++
-		sf.Result = p.typeExpr()
+		if p.peek().kind == "eof" {
+			sf.Result = TypeExpr{Kind: "name", Name: "bool"}
+		} else {
+			sf.Result = p.typeExpr()
+		}
 	}()
 	if perr != nil {
 		return nil, perr
